@@ -1220,6 +1220,8 @@ where
 
 impl<T> Parser<T> for Box<dyn Parser<T>> {
     fn eval(&self, args: &mut State) -> Result<T, Error> {
+        #[cfg(bpaf_verif)]
+        crate::verif::tick();
         self.as_ref().eval(args)
     }
     fn meta(&self) -> Meta {
